@@ -693,3 +693,90 @@ def gen_sched(g):
 
 
 PROFILES['sched'] = gen_sched
+
+
+# ---------------------------------------------------------------------------
+# C16: stop conditions placed from a dry run
+
+def gen_stop(g):
+    import copy
+    from . import execu
+    r = g.rng
+    lockish = g.chance(0.3)
+    scn, model, chain = base_scenario(
+        g, 'stop', force_worm=True if lockish else None,
+        self_locking=True if lockish else None,
+        n_target=r.choice([2, 3, 4, 5, 6, 8]))
+    # amperometer needs current data
+    mot = scn['elements'][0]
+    if mot['i0'] is None and g.chance(0.6):
+        m2 = g.motor('e0_motor', current=True)
+        for key in ('i0', 'imax'):
+            mot[key] = m2[key]
+        model = model_of(scn['elements'], scn['decls'])
+    k = rm.rate_constant(model, chain)[0]
+    scn['load'] = gen_load(g, model, chain,
+                           overload=r.choice([0.3, 0.8, 1.2, 3]))
+    scn['init'] = gen_init(g, model, chain)
+    sched = [gen_run(g, k)]
+    if g.chance(0.5):
+        sched.append(gen_run(g, k))
+    if g.chance(0.15):
+        sched.append(gen_run(g, k))
+    scn['schedule'] = sched
+    add_control(g, scn, model, chain, p=0.5)
+    # -- dry run (real code, no stop) to learn the reachable range
+    dry = copy.deepcopy(scn)
+    H = execu.execute(dry, keep_objects=True)
+    ctx = H.get('_ctx')
+    sensors = ['encoder', 'tachometer']
+    if mot['i0'] is not None:
+        sensors.append('amperometer')
+    sensor = r.choice(sensors)
+    tgt = chain[0] if sensor == 'amperometer' else r.choice(chain)
+    var, kind = execu.SENSOR_VAR[sensor]
+    series = []
+    raw = []
+    try:
+        lst = ctx.objs[tgt].time_variables.get(var, [])
+        raw = [[x.value, x.unit] for x in lst]
+        series = [si.obj_si(x) for x in lst]
+    except Exception:      # noqa
+        pass
+    series = [x for x in series if x == x and abs(x) < 1e200]
+    opname = r.choice(['gt', 'ge', 'lt', 'le', 'eq'])
+    place = r.choice(['inside', 'inside', 'on_sample', 'on_sample', 'before',
+                      'beyond', 'mid'])
+    if len(series) < 3:
+        lo, hi = -1.0, 1.0
+        thr = g.q(kind, r.uniform(lo, hi))
+    else:
+        lo, hi = min(series), max(series)
+        span = (hi - lo) or max(abs(hi), 1.0)
+        j = r.randrange(1, len(series))
+        if place == 'inside':
+            thr = g.q(kind, r.uniform(lo, hi))
+        elif place == 'mid':
+            thr = g.q(kind, 0.5 * (series[j - 1] + series[j]))
+        elif place == 'on_sample':
+            thr = list(raw[j]) if g.chance(0.7) else g.q(kind, series[j])
+        elif place == 'before':
+            thr = g.q(kind, lo - r.uniform(0.1, 2) * span
+                      if opname in ('gt', 'ge') else
+                      hi + r.uniform(0.1, 2) * span)
+        else:
+            thr = g.q(kind, hi + r.uniform(0.1, 2) * span
+                      if opname in ('gt', 'ge') else
+                      lo - r.uniform(0.1, 2) * span)
+    if opname == 'eq' and place not in ('on_sample',) and len(series) >= 3:
+        j = r.randrange(1, len(series))
+        thr = list(raw[j])
+    scn['stops'] = [{'sensor': sensor, 'target': tgt, 'op': opname,
+                     'thr': thr, 'place': place}]
+    for i, op in enumerate(sched):
+        if i == 0 or g.chance(0.7):
+            op['stop'] = 0
+    return scn
+
+
+PROFILES['stop'] = gen_stop
